@@ -69,7 +69,10 @@ structure Match where
 /-- the type a child key is matched as: a bound type variable is replaced by its binding -/
 def matchDtype (tv : Tyvars) (dtype : Dtype) : Dtype :=
   match dtype.withoutConst with
-  | .tyvar n => (match tv.get n with | some b => b | none => dtype)
+  | .tyvar n =>
+      (match tv.get n with
+       | some b => if dtype.isConst then b.withConst else b   -- `const S` stays const once bound
+       | none => dtype)
   | _ => dtype
 
 def isTyvar : Dtype → Bool | .tyvar _ => true | _ => false
@@ -130,9 +133,9 @@ def allMatchesData (t : Trie) (sig : List Dtype) (tv : Tyvars) : Option (List Ma
 
 inductive Resolution where
   | ok (params : List Dtype) (ret : Dtype)
-  | noMatch            -- `return_type` is None  → DataTypeError in ColFn.dtype
-  | ambiguous          -- the uniqueness assertion of best_signature_match fails (AssertionError)
-  | internalError      -- any other failed assertion / KeyError inside the trie walk
+  | noMatch            -- `best_match` is None (no overload, or no *unique* closest overload)
+                       --   → `return_type` is None → DataTypeError in ColFn.dtype
+  | internalError      -- a failed assertion / KeyError inside the trie walk
   deriving DecidableEq, Repr
 
 def resolveTrie (t : Trie) (args : List Dtype) : Resolution :=
@@ -144,7 +147,7 @@ def resolveTrie (t : Trie) (args : List Dtype) : Resolution :=
       | .idx i => (match ms[i]? with
           | some m => .ok m.params m.ret
           | none => .internalError)
-      | .ambiguous => .ambiguous
+      | .ambiguous => .noMatch        -- best_signature_match returns None: not unique
       | .internalError => .internalError
 
 /-- `op.trie.best_match(args)` for an operator declaration -/
@@ -156,7 +159,6 @@ def resolve (op : OpDecl) (args : List Dtype) : Resolution :=
 def Resolution.toText : Resolution → String
   | .ok ps r => "ok [" ++ ", ".intercalate (ps.map Dtype.toText) ++ "] -> " ++ r.toText
   | .noMatch => "nomatch"
-  | .ambiguous => "ambiguous"
   | .internalError => "internal"
 
 end Pdt
